@@ -17,7 +17,7 @@ SPEC = dict(
          "ValueError without - compared by the harness as 'error' only). That the option is read nowhere but in read_pdb is "
          "established dynamically (traced reads), not by a theorem.",
     technique="Lean 4 proof (induction over the line list on the parser model) + differential correspondence + metamorphic runs",
-    lean=["Propka.Props.C13"],
+    lean=["Propka.Props.C13", "Propka.Props.Program"],
     rule="multi-chain structures (test files and 2-3 library fragments with TER / bare TER / no TER, OXT or not, blank chain ids, "
          "hetero groups with their own chain id, junk records, waters) x non-empty subsets of chain ids (plus absent ids); "
          "non-trivial = the selection removes at least one record and keeps at least one",
